@@ -331,4 +331,105 @@ theorem popcountGeneric64_eq (x : BitVec 64) : popcountGeneric64 x = popc 64 x.t
   generalize popc 8 (x.toNat / 256 / 256 / 256 / 256 / 256 / 256 / 256 % 256) = p7 at *
   exact top_byte_sum 64 56 (1 * p1 + 257 * p2 + 65793 * p3 + 16843009 * p4 + 4311810305 * p5 + 1103823438081 * p6 + 282578800148737 * p7) (p0 + (p1 + (p2 + (p3 + (p4 + (p5 + (p6 + p7))))))) (282578800148737 * p0 + 282578800148736 * p1 + 282578800148480 * p2 + 282578800082944 * p3 + 282578783305728 * p4 + 282574488338432 * p5 + 281474976710656 * p6) _ (by omega) (by omega) (by omega)
 
+
+/-! #### popcount(const void*, size_t) -/
+
+theorem loadLE_toNat (w : Nat) (bs : List (BitVec 8)) (h : 8 * bs.length ≤ w) :
+    (loadLE w bs).toNat < 2 ^ (8 * bs.length) ∧
+    ∀ b : BitVec 8, 8 * (bs.length + 1) ≤ w →
+      (loadLE w (b :: bs)).toNat = 256 * (loadLE w bs).toNat + b.toNat := by
+  induction bs with
+  | nil =>
+    refine ⟨by simp [loadLE], fun b hb => ?_⟩
+    simp only [loadLE, BitVec.toNat_or, BitVec.toNat_shiftLeft, BitVec.toNat_setWidth]
+    have : b.toNat < 2 ^ w := Nat.lt_of_lt_of_le b.isLt (Nat.pow_le_pow_right (by omega) (by simpa using hb))
+    simp [Nat.mod_eq_of_lt this]
+  | cons a bs ih =>
+    have hlen : 8 * bs.length ≤ w := by simp at h; omega
+    obtain ⟨h1, h2⟩ := ih hlen
+    have ha := h2 a (by simpa using h)
+    have step : ∀ (c : BitVec 8) (l : List (BitVec 8)) (k : Nat), (loadLE w l).toNat < 2 ^ (8 * k) →
+        8 * (k + 1) ≤ w → (loadLE w (c :: l)).toNat = 256 * (loadLE w l).toNat + c.toNat := by
+      intro c l k hl hk
+      simp only [loadLE, BitVec.toNat_or, BitVec.toNat_shiftLeft, BitVec.toNat_setWidth, Nat.shiftLeft_eq]
+      have hc : c.toNat < 2 ^ w := Nat.lt_of_lt_of_le c.isLt (Nat.pow_le_pow_right (by omega) (by omega))
+      have hp : 2 ^ (8 * (k + 1)) = 2 ^ (8 * k) * 256 := by
+        rw [show 8 * (k + 1) = 8 * k + 8 by omega, Nat.pow_add]
+      have hle : 2 ^ (8 * (k + 1)) ≤ 2 ^ w := Nat.pow_le_pow_right (by omega) hk
+      have hlt : (loadLE w l).toNat * 2 ^ 8 < 2 ^ w := by
+        have : (loadLE w l).toNat * 256 < 2 ^ (8 * k) * 256 := Nat.mul_lt_mul_of_pos_right hl (by omega)
+        have e : (2 : Nat) ^ 8 = 256 := by decide
+        rw [e]; omega
+      rw [Nat.mod_eq_of_lt hlt, Nat.mod_eq_of_lt hc]
+      -- x * 256 ||| c = x * 256 + c  (c < 256)
+      have e : (2 : Nat) ^ 8 = 256 := by decide
+      rw [e, Nat.mul_comm _ 256]
+      have : 256 * (loadLE w l).toNat ||| c.toNat = 256 * (loadLE w l).toNat + c.toNat := by
+        have h := split_and (loadLE w l).toNat 0 0 c.toNat (by omega) c.isLt
+        have : 256 * (loadLE w l).toNat ||| c.toNat = 2 ^ 8 * (loadLE w l).toNat + c.toNat := by
+          rw [Nat.two_pow_add_eq_or_of_lt c.isLt]
+        rw [this, e]
+      exact this
+    constructor
+    · rw [ha]
+      have : 2 ^ (8 * (a :: bs).length) = 2 ^ (8 * bs.length) * 256 := by
+        simp only [List.length_cons]
+        rw [show 8 * (bs.length + 1) = 8 * bs.length + 8 by omega, Nat.pow_add]
+      rw [this]
+      have := a.isLt
+      have e : (2 : Nat) ^ 8 = 256 := by decide
+      omega
+    · intro b hb
+      apply step b (a :: bs) (bs.length + 1)
+      · rw [ha]
+        have : 2 ^ (8 * (bs.length + 1)) = 2 ^ (8 * bs.length) * 256 := by
+          rw [show 8 * (bs.length + 1) = 8 * bs.length + 8 by omega, Nat.pow_add]
+        rw [this]
+        have := a.isLt
+        have e : (2 : Nat) ^ 8 = 256 := by decide
+        omega
+      · simpa using hb
+
+/-- number of one bits of a byte string -/
+def bitsOf (bs : List (BitVec 8)) : Nat := (bs.map fun b => popc 8 b.toNat).sum
+
+theorem popc_loadLE (w : Nat) (bs : List (BitVec 8)) (h : 8 * bs.length ≤ w) :
+    popc (8 * bs.length) (loadLE w bs).toNat = bitsOf bs := by
+  induction bs with
+  | nil => simp [popc, bitsOf]
+  | cons b bs ih =>
+    have hlen : 8 * bs.length ≤ w := by simp at h; omega
+    have e := (loadLE_toNat w bs hlen).2 b (by simpa using h)
+    simp only [List.length_cons]
+    rw [popc_bytes, e]
+    have h1 : (256 * (loadLE w bs).toNat + b.toNat) % 256 = b.toNat := by have := b.isLt; omega
+    have h2 : (256 * (loadLE w bs).toNat + b.toNat) / 256 = (loadLE w bs).toNat := by have := b.isLt; omega
+    rw [h1, h2, ih hlen]
+    simp [bitsOf]
+
+theorem popcountBufTail_eq (bs : List (BitVec 8)) : popcountBufTail bs = bitsOf bs := by
+  unfold popcountBufTail
+  split
+  · next b0 b1 b2 b3 rest =>
+    have := popc_loadLE 32 [b0, b1, b2, b3] (by simp)
+    simp only [popcountOverload, specPopcount]
+    simp only [List.length_cons, List.length_nil] at this
+    rw [show (32 : Nat) = 8 * (0 + 1 + 1 + 1 + 1) by rfl, this]
+    simp [bitsOf]; omega
+  · simp [popcountOverload, specPopcount, bitsOf]
+
+/-- **popcount(data, size)** (any alignment): the number of one bits of the bytes -/
+theorem popcountBuf_eq (bs : List (BitVec 8)) : popcountBuf bs = bitsOf bs := by
+  induction bs using popcountBuf.induct with
+  | case1 b0 b1 b2 b3 b4 b5 b6 b7 rest ih =>
+    have := popc_loadLE 64 [b0, b1, b2, b3, b4, b5, b6, b7] (by simp)
+    simp only [popcountBuf, popcountOverload, specPopcount, ih]
+    simp only [List.length_cons, List.length_nil] at this
+    rw [show (64 : Nat) = 8 * (0 + 1 + 1 + 1 + 1 + 1 + 1 + 1 + 1) by rfl, this]
+    simp [bitsOf]; omega
+  | case2 bs h =>
+    rw [popcountBuf]
+    · exact popcountBufTail_eq bs
+    · exact h
+
 end TlxVerif.C20
